@@ -174,7 +174,7 @@ def norm2 (v : List Float) : Float := (v.foldl (fun s a => s + a * a) 0).sqrt
 def relresF (A : FRows) (x b : List Float) : Float :=
   let r := (b.zip (mulVecF A x)).map fun p => p.1 - p.2
   let nb := norm2 b
-  if nb.abs > 1e-16 then norm2 r / nb else norm2 r
+  if nb.abs > 0 then norm2 r / nb else norm2 r      -- relative to any nonzero right-hand side, however small
 
 /-! ### C09 -/
 
@@ -279,6 +279,13 @@ def checkSolve (prop : String) : Rd Verdict := do
     let okk := if t.isNaN || h.isNaN then (t.isNaN && h.isNaN) else if t.isInf || h.isInf || t.abs > 1e140 || h.abs > 1e140 then (h.abs > 1e100 && t.abs > 1e100)   -- overflow regime of the squared norms: both must be huge
                else (h - t).abs ≤ 1e-6 * (t.abs + h.abs) + 1e-12
     if !okk then return specFail (base ++ "/spec/history_true") s!"iterate {k}: reported {h}, true {t}" feats
+  -- converged means: finite and truly below the tolerance
+  if iters < o.maxIter then
+    let xf := xfinal.map bitsToFloat
+    if xf.any (fun v => !v.isFinite) then return specFail (base ++ "/spec/nonfinite_converged") s!"x={showF xf}" feats
+    let t := relresF A xf b0
+    if !(t ≤ o.tol * (1 + 1e-6) + 1e-300) then
+      return specFail (base ++ "/spec/converged_but_large_residual") s!"iters={iters} < {o.maxIter}, true relres={t} > tol={o.tol}" feats
   -- stop logic: the model's loop over the code's own iterates
   let cyc (x : List Float) : List Float := match its.idxOf? x with
     | some k => its.getD (k+1) x
@@ -289,13 +296,6 @@ def checkSolve (prop : String) : Rd Verdict := do
   let m := Cycle.solve cyc (fun x => let r := relresF A x b0; if r.isNaN then (1.0 / 0.0) else r) o.tol o.maxIter x0
   if !borderline && m.iters != iters && (its.eraseDups.length == its.length) then
     return diff (base ++ "/stop_logic") s!"impl iters={iters} model iters={m.iters} tol={o.tol} hist={showF hist}" feats
-  -- converged means: finite and truly below the tolerance
-  if iters < o.maxIter then
-    let xf := xfinal.map bitsToFloat
-    if xf.any (fun v => !v.isFinite) then return specFail (base ++ "/spec/nonfinite_converged") s!"x={showF xf}" feats
-    let t := relresF A xf b0
-    if !(t ≤ o.tol * (1 + 1e-6) + 1e-300) then
-      return specFail (base ++ "/spec/converged_but_large_residual") s!"iters={iters} < {o.maxIter}, true relres={t} > tol={o.tol}" feats
   if prop == "C10" then
     -- hypothesis of the energy theorem, evaluated on the hierarchy the solver built: every coarse operator is Galerkin
     match galerkinDefect H with
